@@ -34,7 +34,8 @@ def corpus_defs(tier):
         _mc(_c('av', '{"h264"}', '{"opus"}', 2 if q else 3, 2, 4 if q else 5, not q), rel='layout', facets=F_ST),
     ] + ([] if q else [
         _mc(_c('av', '{"h264"}', '{"aac"}', 3, 3, 6, False), rel='layout', facets=F_ST),
-    ]), rand=[dict(gen='mux', n=150 if q else 3000, rel='layout', facets=F_ST)])
+    ]), rand=[dict(gen='mux', n=150 if q else 3000, rel='layout', facets=F_ST),
+              dict(gen='mux_big', n=24 if q else 300, rel='layout', facets=F_ST)])
     # --- contract: every time class x frame class x entry point from every state class ---------
     cruns = []
     for pre in ([0, 1, 2] if q else [0, 1, 2, 3]):
